@@ -369,6 +369,159 @@ def render_case(case):
     return rc(case)
 
 
+# ---------------------------------------------------------------------------------------------
+# name -> index packaging of named outputs (pure Python)
+
+
+@st.composite
+def strat_named(draw, tier):
+    k = draw(st.integers(1, 5))
+    extra = draw(st.integers(0, 2))  # the sequence may be longer than the mapping (partial mapping)
+    names = draw(st.lists(st.sampled_from(gen.BETA_NAMES), min_size=k, max_size=k, unique=True))
+    indices = draw(st.permutations(list(range(k + extra))))[:k]
+    order = draw(st.permutations(list(range(k))))  # order in which the mapping lists its entries
+    mapping = [[names[i], indices[i]] for i in order]
+    n = k + extra
+    vals = st.floats(-50, 50).map(lambda x: round(x, 3))
+    g = draw(st.lists(vals, min_size=n, max_size=n))
+    h = [draw(st.lists(vals, min_size=n, max_size=n)) for _ in range(n)]
+    b = [draw(st.lists(vals, min_size=n, max_size=n)) for _ in range(n)]
+    rows = draw(st.integers(1, 3))
+    return dict(mapping=mapping, g=g, h=h, b=b, rows=rows, f=draw(vals))
+
+
+def judge_named(spec) -> Outcome:
+    import biogeme.function_output as fo
+
+    out = Outcome()
+    mapping = {n: i for n, i in spec['mapping']}
+    in_order = [i for _, i in spec['mapping']] == sorted(i for _, i in spec['mapping'])
+    out.nontrivial = len(mapping) >= 2 and not in_order
+    out.classes += ['listed_in_index_order' if in_order else 'listed_out_of_index_order',
+                    'partial_mapping' if len(mapping) < len(spec['g']) else 'full_mapping']
+    g, h, b = np.array(spec['g']), np.array(spec['h']), np.array(spec['b'])
+
+    def check(label, named_g, named_h, named_b, gg, hh, bb):
+        for n, i in mapping.items():
+            if named_g is not None and not named_g.get(n) == gg[i]:
+                out.fail(f'named:{label}:gradient', f'{label}: gradient[{n!r}] = {named_g.get(n)!r}, entry {i} of the '
+                                                    f'array is {gg[i]!r} (mapping {spec["mapping"]})')
+                return
+            for m, j in mapping.items():
+                if named_h is not None and not named_h[n][m] == hh[i][j]:
+                    out.fail(f'named:{label}:hessian', f'{label}: hessian[{n!r}][{m!r}] = {named_h[n][m]!r}, entry '
+                                                       f'({i},{j}) is {hh[i][j]!r} (mapping {spec["mapping"]})')
+                    return
+                if named_b is not None and not named_b[n][m] == bb[i][j]:
+                    out.fail(f'named:{label}:bhhh', f'{label}: bhhh[{n!r}][{m!r}] = {named_b[n][m]!r}, entry ({i},{j}) '
+                                                    f'is {bb[i][j]!r}')
+                    return
+    try:
+        d = fo.convert_to_dict(list(g), mapping)
+        if d != {n: g[i] for n, i in mapping.items()}:
+            out.fail('named:convert_to_dict', f'convert_to_dict({list(g)}, {spec["mapping"]}) = {d}')
+        base = fo.BiogemeFunctionOutput(function=spec['f'], gradient=g, hessian=h, bhhh=b)
+        nf = fo.NamedBiogemeFunctionOutput(function_output=base, mapping=mapping)
+        check('NamedBiogemeFunctionOutput', nf.gradient, nf.hessian, nf.bhhh, g, h, b)
+        plain = fo.NamedFunctionOutput(function_output=fo.FunctionOutput(function=spec['f'], gradient=g, hessian=h),
+                                       mapping=mapping)
+        check('NamedFunctionOutput', plain.gradient, plain.hessian, None, g, h, b)
+        r = spec['rows']
+        dis = fo.BiogemeDisaggregateFunctionOutput(
+            functions=np.full(r, spec['f']), gradients=np.array([g * (q + 1) for q in range(r)]),
+            hessians=np.array([h * (q + 1) for q in range(r)]), bhhhs=np.array([b * (q + 1) for q in range(r)]))
+        nd = fo.NamedBiogemeDisaggregateFunctionOutput(function_output=dis, mapping=mapping)
+        for q in range(r):
+            check(f'NamedBiogemeDisaggregateFunctionOutput[row {q}]', nd.gradients[q], nd.hessians[q], nd.bhhhs[q],
+                  g * (q + 1), h * (q + 1), b * (q + 1))
+    except Exception as e:  # noqa
+        out.fail(f'named:raises:{type(e).__name__}', f'named outputs with mapping {spec["mapping"]} raised {e!r}')
+    return out
+
+
+# ---------------------------------------------------------------------------------------------
+# the finite-difference self-check offered to users (tools.derivatives)
+
+
+@st.composite
+def strat_findiff(draw, tier):
+    k = draw(st.integers(1, 4))
+    # f(x) = sum_i a_i x_i + sum_{i<=j} q_ij x_i x_j + sum_i c_i exp(d_i x_i) + e * prod_i sin(x_i + s_i)
+    co = st.one_of(gen.dyadic(-2, 2), st.floats(-2, 2).map(lambda v: round(v, 2)))
+    x = [draw(st.one_of(st.floats(-3, 3).map(lambda v: round(v, 3)), gen.dyadic(-3, 3), st.just(0.0))) for _ in range(k)]
+    return dict(x=x, a=[draw(co) for _ in range(k)], q=[[draw(co) for _ in range(k)] for _ in range(k)],
+                c=[draw(co) for _ in range(k)], d=[draw(gen.dyadic(-1, 1)) for _ in range(k)], e=draw(co),
+                s=[draw(gen.dyadic(-1, 1)) for _ in range(k)])
+
+
+def _fd_function(spec):
+    a, c, d, e, s = (np.array(spec[n], dtype=float) for n in ('a', 'c', 'd', 'e', 's'))
+    q = np.triu(np.array(spec['q'], dtype=float))
+    k = len(a)
+
+    def f(x):
+        x = np.asarray(x, dtype=float)
+        sn, cs = np.sin(x + s), np.cos(x + s)
+        prod = np.prod(sn)
+        val = a @ x + x @ q @ x + np.sum(c * np.exp(d * x)) + e * prod
+        grad = a + (q + q.T) @ x + c * d * np.exp(d * x)
+        hess = (q + q.T) + np.diag(c * d * d * np.exp(d * x))
+        for i in range(k):
+            others = np.prod(np.delete(sn, i))
+            grad[i] += e * cs[i] * others
+            for j in range(k):
+                if i == j:
+                    hess[i, i] += -e * sn[i] * others
+                else:
+                    rest = np.prod(np.delete(sn, [i, j]))
+                    hess[i, j] += e * cs[i] * cs[j] * rest
+        return float(val), grad, hess
+    return f
+
+
+def judge_findiff(spec) -> Outcome:
+    import biogeme.tools.derivatives as td
+    from biogeme.function_output import FunctionOutput
+
+    out = Outcome()
+    f = _fd_function(spec)
+    x = np.array(spec['x'], dtype=float)
+    val, grad, hess = f(x)
+    k = len(x)
+    offdiag = k >= 2 and float(np.max(np.abs(hess - np.diag(np.diag(hess))))) > 1e-3
+    steps_differ = len({(abs(v) if abs(v) >= 1 else (1.0 if v >= 0 else -1.0)) for v in x}) > 1
+    out.nontrivial = offdiag and steps_differ
+    out.classes += ['offdiag' if offdiag else 'separable', 'mixed_steps' if steps_differ else 'equal_steps']
+
+    def the_function(z):
+        v, g, h = f(z)
+        return FunctionOutput(function=v, gradient=g, hessian=h)
+    scale = 1 + float(np.max(np.abs(hess))) + float(np.max(np.abs(grad))) + abs(val)
+    try:
+        g_num = np.asarray(td.findiff_g(the_function, x.copy()), dtype=float)
+        h_num = np.asarray(td.findiff_h(the_function, x.copy()), dtype=float)
+        cd = td.check_derivatives(the_function, x.copy(), names=[f'p{i}' for i in range(k)], logg=False)
+    except Exception as e:  # noqa
+        out.fail(f'findiff:raises:{type(e).__name__}', f'finite-difference tools raised {e!r} at x={spec["x"]}')
+        return out
+    # forward differences with step 1e-7: truncation ~1e-7 * |third derivative|, rounding ~1e-9 * |f|
+    tol = 2e-5 * scale
+    if g_num.shape != grad.shape or not np.all(np.abs(g_num - grad) <= tol):
+        out.fail('findiff:findiff_g', f'findiff_g = {g_num.tolist()} but the gradient is {grad.tolist()} at x={spec["x"]}')
+    if h_num.shape != hess.shape or not np.all(np.abs(h_num - hess) <= tol):
+        out.fail('findiff:findiff_h', f'findiff_h = {h_num.tolist()} but the Hessian is {hess.tolist()} at x={spec["x"]}')
+    gdiff, hdiff = np.asarray(cd[3], dtype=float), np.asarray(cd[4], dtype=float)
+    if not (abs(cd[0] - val) <= 1e-12 * scale and np.allclose(cd[1], grad) and np.allclose(cd[2], hess)):
+        out.fail('findiff:check_derivatives:analytical', 'check_derivatives does not return the analytical f, g, h it was given')
+    if gdiff.shape != grad.shape or not np.all(np.abs(gdiff) <= tol):
+        out.fail('findiff:check_derivatives:gdiff', f'check_derivatives reports gradient differences {gdiff.tolist()} '
+                                                    f'for exact derivatives at x={spec["x"]}')
+    if hdiff.shape != hess.shape or not np.all(np.abs(hdiff) <= tol):
+        out.fail('findiff:check_derivatives:hdiff', f'check_derivatives reports Hessian differences {hdiff.tolist()} '
+                                                    f'for exact derivatives at x={spec["x"]}')
+    return out
+
+
 SUBCHECKS = [
     SubCheck('derivatives', strat, judge, render_case, dict(quick=1600, thorough=60000),
              'differentiable random expression DAGs x tables x parameter points; every entry point '
@@ -376,5 +529,14 @@ SUBCHECKS = [
              'create_objective_function, BIOGEME.calculate_likelihood_and_derivatives scaled and unscaled, '
              'check_derivatives) against reference jets; non-trivial: >= 2 free parameters, non-zero off-diagonal '
              'Hessian, order of appearance != sorted order', max_skip_fraction=0.3),
+    SubCheck('named_outputs', strat_named, judge_named, lambda s: f"mapping {s['mapping']} over arrays of size {len(s['g'])}",
+             dict(quick=1500, thorough=30000),
+             'Named*FunctionOutput / convert_to_dict with generated name->index mappings (listed in any order, possibly '
+             'partial): entry under a name == array entry at its index; non-trivial: >= 2 names not listed in index order'),
+    SubCheck('finite_differences', strat_findiff, judge_findiff, lambda s: f"f with {len(s['x'])} variables at x={s['x']}",
+             dict(quick=1500, thorough=30000),
+             'tools.derivatives findiff_g / findiff_h / check_derivatives on generated smooth functions with exact '
+             'derivatives (quadratic + exponential + product-of-sines): differences reported must be small; non-trivial: '
+             'non-zero cross derivatives and coordinates that get different step sizes'),
 ]
-RULE = SUBCHECKS[0].rule
+RULE = ' | '.join(f'{s.name}: {s.rule}' for s in SUBCHECKS)
